@@ -151,6 +151,11 @@ def cmp_impl(a, b, exact=False, check_vars=False, check_params=True, loose_kinds
         diffs.append("modes: %s vs %s" % (a["modes"], b["modes"]))
     if check_vars:
         da, db = dict(a["vars"]), dict(b["vars"])
+        if check_vars == "hoisting":
+            # after a dumps/loads cycle array arguments passed by value come back as hoisted variables
+            # A0, A1, ...: every original variable must still be there with its data, the hoisted ones are extra
+            import re as _re
+            db = {k: v for k, v in db.items() if k in da or not _re.fullmatch(r"A\d+", k)}
         if sorted(da) != sorted(db):
             diffs.append("variables: %s vs %s" % (sorted(da), sorted(db)))
         else:
